@@ -1,16 +1,412 @@
-(* C18: after a copy, any later sequence of tree operations, cell writes, setters and style
-   updates applied to ONE side (the originals, or the objects of the copy) leaves every observation
-   of the OTHER side unchanged. *)
+(* C18: after a copy, any later sequence of operations applied to ONE side (the originals, or the
+   objects of the copy) - tree operations, cell writes, setters, style updates, creation of new
+   objects - leaves every observation of the OTHER side unchanged. *)
 From Coq Require Import List Bool Arith PeanoNat Lia.
 From MV Require Import Model.ForestModel Model.ForestExec Model.CopyModel
-  Proofs.ForestInv Proofs.ForestBase Proofs.ForestStep Proofs.ForestCopy Proofs.ForestMain
-  Proofs.ForestFrame Proofs.CopyBase Proofs.CopyProofs.
+  Proofs.ForestInv Proofs.ForestBase Proofs.ForestRm Proofs.ForestDepth Proofs.ForestStep Proofs.ForestStep2 Proofs.ForestCopy Proofs.ForestMain
+  Proofs.CopyBase Proofs.CopyProofs.
+From MV Require Import Proofs.ForestFrame.
 Import ListNotations.
 
-(* ---------------------------------------------------------------- the copied tree is closed *)
-Lemma copy_closed s x : Inv s -> live s x = true -> Closed (length s) (copy_op s x).
+(* ---------------------------------------------------------------- separation w.r.t. a partition *)
+Section SepP.
+Variable side : nat -> bool.
+
+Definition SepP (u : cstate) : Prop :=
+  (forall i j c, side i = true -> side j = false -> In c (lown u i) -> ~ In c (lown u j)) /\ Bounded u.
+
+Lemma SepP_step u u' i o' :
+  fs u' = fs u ->
+  co u' = lupd (co u) i o' ->
+  length (heap u) <= length (heap u') ->
+  (forall c, In c (cells_of o') ->
+             In c (owned u i) \/ (length (heap u) <= c /\ c < length (heap u'))) ->
+  SepP u -> SepP u'.
 Proof.
-  intros HI Hx. set (n := length s). set (t := copy_op s x). unfold Closed, side. split.
+  intros Hfs Hco Hh Hc [D B].
+  assert (O : forall j c, In c (lown u' j) ->
+                In c (lown u j) \/ (j = i /\ length (heap u) <= c /\ c < length (heap u')) \/
+                (j = i /\ In c (lown u i))).
+  { intros j c H. unfold lown in *. rewrite Hfs in H. destruct (is_junk (fs u) j) eqn:Ej; auto.
+    unfold owned, cget in H. rewrite Hco, cget_lupd in H.
+    destruct (Nat.eqb j i && Nat.ltb i (length (co u))) eqn:E; auto.
+    apply andb_prop in E. destruct E as [E _]. apply Nat.eqb_eq in E. subst j. rewrite Ej.
+    apply Hc in H. destruct H; auto. }
+  split.
+  - intros a b c La Lb Ha Hb. apply O in Ha. apply O in Hb.
+    destruct Ha as [Ha|[(-> & Ha1 & Ha2)|(-> & Ha)]]; destruct Hb as [Hb|[(-> & Hb1 & Hb2)|(-> & Hb)]];
+      try congruence; try (eapply D; eauto; fail).
+    + apply B in Ha. lia.
+    + apply B in Hb. lia.
+  - intros j c H. apply O in H. destruct H as [H|[(_ & _ & H)|(_ & H)]]; auto.
+    + apply B in H. lia.
+    + apply B in H. lia.
+Qed.
+
+Lemma SepP_touch u i : SepP u -> SepP (touch_style u i).
+Proof.
+  intros HS. unfold touch_style.
+  destruct (style_cell (cget u i)) as [c0|] eqn:Es, (skw_pending (cget u i)) eqn:Ep; auto.
+  - eapply (SepP_step u _ i); [reflexivity | simpl; reflexivity | | | exact HS]; simpl.
+    + rewrite app_length. lia.
+    + intros c H. apply cells_of_mk in H. rewrite app_length. simpl.
+      destruct H as [H|[H|H]].
+      * left. apply owned_cases. auto.
+      * right. lia.
+      * left. apply owned_cases. inversion H. subst. auto.
+  - eapply (SepP_step u _ i); [reflexivity | simpl; reflexivity | | | exact HS]; simpl.
+    + rewrite app_length. lia.
+    + intros c H. apply cells_of_mk in H. rewrite app_length. simpl.
+      destruct H as [H|[H|H]].
+      * left. apply owned_cases. auto.
+      * right. lia.
+      * right. inversion H. lia.
+  - eapply (SepP_step u _ i); [reflexivity | simpl; reflexivity | | | exact HS]; simpl.
+    + rewrite app_length. lia.
+    + intros c H. apply cells_of_mk in H. rewrite app_length. simpl.
+      destruct H as [H|[H|H]].
+      * left. apply owned_cases. auto.
+      * left. apply owned_cases. auto.
+      * right. inversion H. lia.
+Qed.
+
+Lemma SepP_set_label u i l : SepP u -> SepP (set_label u i l).
+Proof.
+  intros HS. unfold set_label, cupd.
+  eapply (SepP_step u _ i); [reflexivity | simpl; reflexivity | | | exact HS]; simpl; auto.
+Qed.
+
+Lemma SepP_write u c v : SepP u -> SepP (write u c v).
+Proof.
+  intros [D B]. split; auto. intros i c' H. unfold write. simpl. rewrite lupd_length. apply (B i c' H).
+Qed.
+
+Lemma SepP_apply_kw u y k : SepP u -> SepP (apply_kw u y k).
+Proof.
+  intros HS. destruct k as [j v|v|l]; simpl.
+  - eapply (SepP_step u _ y); [reflexivity | simpl; reflexivity | | | exact HS]; simpl.
+    + rewrite app_length. lia.
+    + intros c H. apply cells_of_mk in H. rewrite app_length. simpl.
+      destruct H as [H|[H|H]].
+      * apply In_lupd in H. destruct H as [->|H]; [right; lia|]. left. apply owned_cases. auto.
+      * left. apply owned_cases. auto.
+      * left. apply owned_cases. auto.
+  - destruct (style_cell (cget (touch_style u y) y)); [apply SepP_write|]; apply SepP_touch; auto.
+  - apply SepP_set_label. apply SepP_touch. auto.
+Qed.
+
+Lemma sepP_disjoint u b i j c : SepP u -> side i = b -> side j <> b ->
+  In c (lown u i) -> ~ In c (lown u j).
+Proof.
+  intros [D _] Hi Hj Hc Hc'. destruct b.
+  - apply (D i j c); auto. destruct (side j); congruence.
+  - apply (D j i c); auto. destruct (side j); congruence.
+Qed.
+End SepP.
+
+Lemma lown_live u i : is_junk (fs u) i = false -> lown u i = owned u i.
+Proof. intros H. unfold lown. rewrite H. reflexivity. Qed.
+
+Lemma lown_nonempty_lt u i c : In c (lown u i) -> i < length (fs u).
+Proof.
+  unfold lown. destruct (is_junk (fs u) i) eqn:E; [contradiction|]. intros _.
+  apply nonjunk_lt. apply is_junk_kd. exact E.
+Qed.
+
+Lemma kw_len u i k : length (co (apply_kw u i k)) = length (co u).
+Proof.
+  destruct k as [sl v|v|l0].
+  - simpl. apply lupd_length.
+  - simpl. destruct (style_cell (cget (touch_style u i) i)); simpl; apply touch_len.
+  - unfold apply_kw, set_label, cupd. simpl. rewrite lupd_length. apply touch_len.
+Qed.
+
+Lemma fold_kw_len y ks : forall u, length (co (fold_left (fun s k => apply_kw s y k) ks u)) = length (co u).
+Proof. induction ks as [|k ks IH]; intros u; simpl; auto. rewrite IH. apply kw_len. Qed.
+
+Lemma copy_co_len s x kws : WF s -> live (fs s) x = true ->
+  length (co (copy s x kws)) = length (fs (copy s x kws)).
+Proof.
+  intros HW Hx. rewrite fs_copy, copy_length, copy_unfold, !fold_kw_len.
+  apply (pf_len s x _ (proj1 (PF_s2 s x HW Hx))).
+Qed.
+
+(* ---------------------------------------------------------------- later operations *)
+Inductive lop :=
+| LTree (o : op)                  (* add / remove / parent = / children,sources,sensors,collections = *)
+| LWrite (c v : nat)              (* in-place write into a buffer *)
+| LKw (i : nat) (k : kwarg)       (* setter (rebinding), style update, label assignment on object i *)
+| LNew (k : kind) (toks : list nat) (style_mode st : nat) (l : label)
+                                  (* a NEW object: Sensor(..), Cuboid(..), Collection() (followed by LTree
+                                     (Add ..) this is Collection(a, b) and a + b) *)
+| LCopy (x : nat) (kws : list kwarg).   (* a further copy() of an object of the side *)
+
+Definition lstep (u : cstate) (l : lop) : cstate :=
+  match l with
+  | LTree o => if creates o then u else mkCstate (fst (step repaired (fs u) o)) (co u) (heap u)
+  | LWrite c v => write u c v
+  | LKw i k => apply_kw u i k
+  | LNew k toks m st l => cnew u k toks m st l
+  | LCopy x kws => if live (fs u) x then copy u x kws else u
+  end.
+
+Definition lrun (u : cstate) (ls : list lop) : cstate := fold_left lstep ls u.
+
+Section Later.
+Variable side : nat -> bool.
+Variable b : bool.
+
+Definition lok (u : cstate) (l : lop) : Prop :=
+  match l with
+  | LTree o => op_on side b o
+  | LWrite c v => exists j, side j = b /\ In c (lown u j)
+  | LKw i k => side i = b /\ is_junk (fs u) i = false
+  | LNew _ _ _ _ _ => True       (* the new object belongs to side b (hypothesis on `side` below) *)
+  | LCopy x _ => side x = b      (* so do the objects of the new copy *)
+  end.
+
+Fixpoint lrun_ok (u : cstate) (ls : list lop) : Prop :=
+  match ls with [] => True | l :: r => lok u l /\ lrun_ok (lstep u l) r end.
+
+Lemma SepP_same_kinds u u' : co u' = co u -> heap u' = heap u ->
+  (forall i, kd (fs u') i = kd (fs u) i) -> SepP side u -> SepP side u'.
+Proof.
+  intros Hc Hh Hk [D B].
+  assert (L : forall i, lown u' i = lown u i).
+  { intros i. unfold lown, owned, cget, is_junk, is_k. rewrite Hk, Hc. reflexivity. }
+  split.
+  - intros i j c. rewrite !L. apply D.
+  - intros i c. rewrite L, Hh. apply B.
+Qed.
+
+Lemma view_apply_kw_other u i k j : SepP side u -> side i = b -> side j <> b ->
+  is_junk (fs u) i = false -> is_junk (fs u) j = false ->
+  view (apply_kw u i k) j = view u j.
+Proof.
+  intros HS Hi Hj Li Lj.
+  assert (Hne : j <> i) by (intros ->; contradiction).
+  assert (Bd : forall u0, SepP side u0 -> fs u0 = fs u -> forall m, (m = i \/ m = j) ->
+                 forall c, In c (owned u0 m) -> c < length (heap u0)).
+  { intros u0 [_ B0] F0 m Hm c Hc. apply (B0 m c). rewrite lown_live; auto.
+    rewrite F0. destruct Hm; subst; auto. }
+  destruct k as [sl v|v|l]; simpl.
+  - apply view_stable.
+    + unfold cget. simpl. rewrite cget_lupd. destruct (Nat.eqb_spec j i); [contradiction | reflexivity].
+    + intros c Hc. unfold hget. simpl. apply app_nth1. apply (Bd u HS eq_refl j); auto.
+  - assert (V1 : view (touch_style u i) j = view u j).
+    { apply view_touch; apply (Bd u HS eq_refl); auto. }
+    destruct (style_cell (cget (touch_style u i) i)) as [c|] eqn:Es; auto.
+    rewrite <- V1. apply view_stable; auto. intros c' Hc'. apply hget_write. intros ->.
+    pose proof (SepP_touch side u i HS) as HS1.
+    apply (sepP_disjoint side (touch_style u i) b i j c HS1 Hi Hj).
+    + rewrite lown_live by (rewrite fs_touch; exact Li). apply owned_cases. auto.
+    + rewrite lown_live by (rewrite fs_touch; exact Lj). exact Hc'.
+  - rewrite view_set_label by exact Hne. apply view_touch; apply (Bd u HS eq_refl); auto.
+Qed.
+
+(* ---- the invariant along the run *)
+Variable u0 : cstate.
+Hypothesis Hnew : forall i, length (fs u0) <= i -> side i = b.   (* new ids belong to side b *)
+
+Record KI (u : cstate) : Prop := mkKI {
+  ki_sep : SepP side u;
+  ki_len : length (co u) = length (fs u);
+  ki_inv : Inv (fs u);
+  ki_fr : exists g, FRg side b g (fs u0) (fs u);
+  ki_view : forall j, side j <> b -> is_junk (fs u0) j = false -> view u j = view u0 j }.
+
+Lemma off_old j : side j <> b -> j < length (fs u0).
+Proof. intros H. destruct (Nat.lt_ge_cases j (length (fs u0))); auto. exfalso. apply H. apply Hnew. auto. Qed.
+
+Lemma junk_same u j : KI u -> j < length (fs u0) -> is_junk (fs u) j = is_junk (fs u0) j.
+Proof.
+  intros HK L. destruct (ki_fr u HK) as (g & F). unfold is_junk, is_k.
+  rewrite (fr_kd _ _ _ _ _ F j L). reflexivity.
+Qed.
+
+Lemma KI_new u k toks m st l : KI u -> KI (cnew u k toks m st l).
+Proof.
+  intros HK. destruct (ki_fr u HK) as (g & F).
+  set (t := fs u) in *. set (nn := length t).
+  assert (Hs : side nn = b) by (apply Hnew; unfold nn; rewrite (fr_len _ _ _ _ _ F); lia).
+  pose proof (FRg_newobj side b t k (fr_closed _ _ _ _ _ F) Hs) as F1.
+  set (t' := fst (step repaired t (NewObj k))) in *.
+  assert (Lt' : length t' = S nn) by (rewrite (fr_len _ _ _ _ _ F1); unfold nn; lia).
+  destruct (ki_sep u HK) as [D B].
+  assert (Ec : length (co u) = nn) by (unfold nn, t; apply HK).
+  set (h := length (heap u)).
+  set (u' := cnew u k toks m st l).
+  assert (Fu : fs u' = t') by reflexivity.
+  (* cells of the objects of the new state *)
+  assert (Jold : forall i, i < nn -> is_junk (fs u') i = is_junk t i).
+  { intros i Li. rewrite Fu. unfold is_junk, is_k. rewrite (fr_kd _ _ _ _ _ F1 i Li). reflexivity. }
+  assert (Cold : forall i, i < nn -> cget u' i = cget u i).
+  { intros i Li. unfold u', cnew, cget. simpl. apply app_nth1. rewrite Ec. exact Li. }
+  assert (Lold : forall i, i < nn -> lown u' i = lown u i).
+  { intros i Li. unfold lown, owned. rewrite Jold, Cold by exact Li. reflexivity. }
+  assert (Lbig : forall i, nn < i -> lown u' i = []).
+  { intros i Li. unfold lown. replace (is_junk (fs u') i) with true; auto.
+    rewrite Fu. unfold is_junk, is_k, kd. rewrite get_oob by lia. reflexivity. }
+  assert (Lnew : forall c, In c (lown u' nn) -> h <= c /\ c < length (heap u')).
+  { intros c Hc. unfold lown in Hc. destruct (is_junk (fs u') nn) eqn:Ej; [contradiction|].
+    unfold owned, u', cnew, cget in Hc. simpl in Hc. rewrite app_nth2 in Hc; [|rewrite Ec; apply Nat.le_refl].
+    rewrite Ec, Nat.sub_diag in Hc. simpl in Hc.
+    destruct k.
+    1-3: (unfold new_cobj in Hc; apply cells_of_mk in Hc; unfold u', cnew; simpl; fold h;
+          rewrite !app_length; simpl;
+          destruct Hc as [Hc|[Hc|Hc]];
+          [apply in_seq in Hc; lia | lia |
+           destruct (Nat.eqb m 2); [inversion Hc; simpl; lia | discriminate]]).
+    exfalso. rewrite Fu in Ej. unfold t' in Ej. simpl in Ej. unfold is_junk, is_k, kd in Ej.
+    rewrite get_app_new in Ej. discriminate. }
+  assert (Hh : h <= length (heap u')).
+  { unfold u', cnew. simpl. destruct k; try rewrite app_length; fold h; lia. }
+  assert (Bold : forall i c, i < nn -> In c (lown u' i) -> c < h).
+  { intros i c Li Hc. rewrite Lold in Hc by exact Li. apply (B i c Hc). }
+  split.
+  - split.
+    + intros i j c Si Sj Hi Hj.
+      destruct (Nat.lt_total i nn) as [Li|[Li|Li]]; destruct (Nat.lt_total j nn) as [Lj|[Lj|Lj]];
+        try (rewrite Lbig in Hi by exact Li; contradiction);
+        try (rewrite Lbig in Hj by exact Lj; contradiction).
+      * rewrite Lold in Hi, Hj by assumption. exact (D i j c Si Sj Hi Hj).
+      * subst j. apply Lnew in Hj. apply Bold in Hi; auto. lia.
+      * subst i. apply Lnew in Hi. apply Bold in Hj; auto. lia.
+      * subst. congruence.
+    + intros i c Hc. destruct (Nat.lt_total i nn) as [Li|[Li|Li]].
+      * apply Bold in Hc; auto. lia.
+      * subst i. apply Lnew in Hc. lia.
+      * rewrite Lbig in Hc by exact Li. contradiction.
+  - rewrite Fu, Lt'. unfold u', cnew. simpl. rewrite app_length, Ec. simpl. lia.
+  - rewrite Fu. unfold t'. apply step_inv. apply HK.
+  - exists (g + 1). rewrite Fu. apply (FRg_trans side b g 1 (fs u0) t t'); auto.
+  - intros j Hj Lj. rewrite <- (ki_view u HK j Hj Lj).
+    pose proof (off_old j Hj) as Lo.
+    assert (Ljn : j < nn) by (unfold nn; rewrite (fr_len _ _ _ _ _ F); lia).
+    apply view_stable; [apply Cold; exact Ljn|].
+    intros c Hc. assert (c < h).
+    { apply (B j c). rewrite lown_live; auto. rewrite (junk_same u j HK Lo). exact Lj. }
+    unfold hget, u', cnew. simpl. destruct k; try reflexivity; apply app_nth1; exact H.
+Qed.
+
+
+Lemma KI_WF u : KI u -> WF u.
+Proof. intros HK. split; [apply HK | split; [apply HK | apply (ki_sep u HK)]]. Qed.
+
+Lemma KI_copy u x kws : KI u -> live (fs u) x = true -> KI (copy u x kws).
+Proof.
+  intros HK Lx. pose proof (KI_WF u HK) as HW. destruct (ki_fr u HK) as (g & F).
+  set (N' := length (fs u)). set (u' := copy u x kws).
+  pose proof (PO_copy u x HW Lx kws) as HPO. pose proof (PC_copy u x HW kws) as HPC. fold u' in HPO, HPC.
+  destruct (po_sep u x u' HPO) as [D' B']. destruct (ki_sep u HK) as [D B].
+  assert (LN : length (fs u0) <= N') by (unfold N'; rewrite (fr_len _ _ _ _ _ F); lia).
+  assert (Hnew' : forall i, N' <= i -> side i = b) by (intros i Li; apply Hnew; lia).
+  split.
+  - split; [|exact B'].
+    intros i j c Si Sj Hi Hj.
+    destruct (Nat.lt_ge_cases i N') as [Li|Li]; destruct (Nat.lt_ge_cases j N') as [Lj|Lj].
+    + destruct (pc_cells u x u' HPC i c Li Hi) as [Oi|(-> & Fi)];
+        destruct (pc_cells u x u' HPC j c Lj Hj) as [Oj|(-> & Fj)].
+      * exact (D i j c Si Sj Oi Oj).
+      * apply B in Oi. lia.
+      * apply B in Oj. lia.
+      * congruence.
+    + exact (D' i j c Li Lj Hi Hj).
+    + exact (D' j i c Lj Li Hj Hi).
+    + rewrite (Hnew' i Li) in Si. rewrite (Hnew' j Lj) in Sj. congruence.
+  - apply copy_co_len; auto.
+  - unfold u'. rewrite fs_copy. apply copy_inv; auto. apply HK.
+  - exists (g + N'). unfold u'. rewrite fs_copy.
+    apply (FRg_trans side b g N' (fs u0) (fs u)); auto.
+    apply FRg_copy; auto; [apply HK | apply F].
+  - intros j Hj Lj. rewrite <- (ki_view u HK j Hj Lj).
+    pose proof (off_old j Hj) as Lo.
+    assert (LjN : j < N') by (unfold N' in *; lia).
+    apply (po_old u x u' HPO j LjN). apply (old_live u x j LjN).
+    rewrite (junk_same u j HK Lo). exact Lj.
+Qed.
+
+Lemma KI_step u l : KI u -> lok u l -> KI (lstep u l).
+Proof.
+  intros HK Hl. destruct l as [o|c v|i k|k toks m st l|x kws]; simpl in *.
+  - destruct (creates o); auto. destruct (ki_fr u HK) as (g & F).
+    pose proof (step_frame side b (fs u) o (fr_closed _ _ _ _ _ F) Hl) as F1.
+    split; simpl.
+    + apply (SepP_same_kinds u); auto; [apply (FR0_kd side b _ _ F1) | apply HK].
+    + rewrite (fr_len _ _ _ _ _ F1). rewrite Nat.add_0_r. apply HK.
+    + apply step_inv. apply HK.
+    + exists g. replace g with (g + 0) by lia. eapply FRg_trans; eauto.
+    + intros j Hj Lj. rewrite <- (ki_view u HK j Hj Lj). reflexivity.
+  - destruct Hl as (i & Hi & Hc). split.
+    + apply SepP_write. apply HK.
+    + apply HK.
+    + apply HK.
+    + apply HK.
+    + intros j Hj Lj. rewrite <- (ki_view u HK j Hj Lj). apply view_stable; auto.
+      intros c' Hc'. apply hget_write. intros ->.
+      apply (sepP_disjoint side u b i j c (ki_sep u HK) Hi Hj Hc).
+      rewrite lown_live; auto. rewrite (junk_same u j HK (off_old j Hj)). exact Lj.
+  - destruct Hl as (Hi & Li). split.
+    + apply SepP_apply_kw. apply HK.
+    + rewrite fs_apply_kw, kw_len. apply HK.
+    + rewrite fs_apply_kw. apply HK.
+    + rewrite fs_apply_kw. apply HK.
+    + intros j Hj Lj. rewrite <- (ki_view u HK j Hj Lj).
+      apply view_apply_kw_other; auto; [apply HK | rewrite (junk_same u j HK (off_old j Hj)); exact Lj].
+  - apply KI_new. exact HK.
+  - destruct (live (fs u) x) eqn:Lx; auto. apply KI_copy; auto.
+Qed.
+
+Lemma KI_run ls : forall u, KI u -> lrun_ok u ls -> KI (lrun u ls).
+Proof.
+  induction ls as [|l r IH]; intros u HK Hok; simpl; auto.
+  destruct Hok as [H1 H2]. apply IH; auto. apply KI_step; auto.
+Qed.
+End Later.
+
+(* ---------------------------------------------------------------- more fuel changes nothing *)
+Lemma flat_nil f s want : flat f s want [] = [].
+Proof. destruct f; reflexivity. Qed.
+
+Lemma flat_stable s want : forall f l,
+  (forall q d x, In q l -> is_coll s q = true -> below s d q x -> d <= f) ->
+  forall f', f <= f' -> flat f' s want l = flat f s want l.
+Proof.
+  induction f as [|f IH]; intros l Hb f' Hf.
+  - destruct f' as [|k]; auto. simpl.
+    induction l as [|o r IHl]; simpl; auto.
+    rewrite IHl by (intros; eapply Hb; eauto; right; auto).
+    destruct (is_coll s o) eqn:Co.
+    + assert (E : chl s o = []).
+      { destruct (chl s o) as [|y ys] eqn:E; auto. exfalso.
+        assert (B : below s 1 o y) by (apply below_child; rewrite E; left; reflexivity).
+        specialize (Hb o 1 y (or_introl eq_refl) Co B). lia. }
+      rewrite E, flat_nil. destruct (want o); reflexivity.
+    + destruct (want o); reflexivity.
+  - destruct f' as [|k]; [lia|]. simpl. apply flat_map_ext_in'. intros o Ho. f_equal.
+    destruct (is_coll s o) eqn:Co; auto. apply IH; [|lia].
+    intros q d y Hq Cq B.
+    assert (B' : below s (S d) o y) by (eapply below_step; eauto).
+    specialize (Hb o (S d) y Ho Co B'). lia.
+Qed.
+
+Lemma flat_fuel_irrelevant s want j f : Inv s -> length s <= f ->
+  flat f s want (chl s j) = flat (length s) s want (chl s j).
+Proof.
+  intros HI Hf. apply flat_stable; auto. intros q d y Hq Cq B.
+  assert (B' : below s (S d) j y) by (eapply below_step; eauto).
+  pose proof (upn_bound s _ _ _ HI (below_upn s HI _ _ _ B')). lia.
+Qed.
+
+(* ---------------------------------------------------------------- the partition after a copy *)
+(* objects that exist right after the copy (ids < N): the originals are the ids < n, the rest are the
+   objects of the copy; objects created LATER (ids >= N) belong to the side that creates them *)
+Definition sideb (n N : nat) (b : bool) (i : nat) : bool := if Nat.ltb i N then Nat.ltb i n else b.
+
+Lemma copy_closed_thr s x : Inv s -> live s x = true ->
+  Closed (fun i => Nat.ltb i (length s)) (copy_op s x).
+Proof.
+  intros HI Hx. set (n := length s). set (t := copy_op s x). unfold Closed. split.
   - intros q y Hy. destruct (t_cases s x q) as [(L & E)|[(p & -> & Sp)|E]].
     + fold t in E. rewrite E in Hy. destruct (inv_child _ HI q y Hy) as (A & _).
       fold n in A, L. apply Nat.ltb_lt in A. apply Nat.ltb_lt in L. congruence.
@@ -30,138 +426,30 @@ Proof.
     + fold t in E. rewrite E in Hq. discriminate.
 Qed.
 
-(* ---------------------------------------------------------------- later operations *)
-Inductive lop :=
-| LTree (o : op)                  (* add / remove / parent = / children,sources,sensors,collections = *)
-| LWrite (c v : nat)              (* in-place write into a buffer *)
-| LKw (i : nat) (k : kwarg).      (* setter (rebinding), style update, label assignment on object i *)
-
-Definition lstep (u : cstate) (l : lop) : cstate :=
-  match l with
-  | LTree o => if creates o then u else mkCstate (fst (step repaired (fs u) o)) (co u) (heap u)
-  | LWrite c v => write u c v
-  | LKw i k => apply_kw u i k
-  end.
-
-Definition lrun (u : cstate) (ls : list lop) : cstate := fold_left lstep ls u.
-
-Section Later.
-Variables (n : nat) (b : bool).
-
-(* the operation concerns side b only *)
-Definition lok (u : cstate) (l : lop) : Prop :=
-  match l with
-  | LTree o => op_on n b o
-  | LWrite c v => exists j, side n j = b /\ In c (lown u j)
-  | LKw i k => side n i = b /\ is_junk (fs u) i = false
-  end.
-
-Fixpoint lrun_ok (u : cstate) (ls : list lop) : Prop :=
-  match ls with [] => True | l :: r => lok u l /\ lrun_ok (lstep u l) r end.
-
-Lemma Sep_same_kinds u u' : co u' = co u -> heap u' = heap u ->
-  (forall i, kd (fs u') i = kd (fs u) i) -> Sep n u -> Sep n u'.
+Lemma copy_closed_sideb s x b : Inv s -> live s x = true ->
+  Closed (sideb (length s) (length s + length s) b) (copy_op s x).
 Proof.
-  intros Hc Hh Hk [D B].
-  assert (L : forall i, lown u' i = lown u i).
-  { intros i. unfold lown, owned, cget, is_junk, is_k. rewrite Hk, Hc. reflexivity. }
+  intros HI Hx. destruct (copy_closed_thr s x HI Hx) as [C1 C2].
+  pose proof (copy_inv s x HI Hx) as HT. pose proof (copy_length s x) as LT.
+  assert (E : forall i, i < length (copy_op s x) ->
+              sideb (length s) (length s + length s) b i = Nat.ltb i (length s)).
+  { intros i Li. unfold sideb. rewrite LT in Li. apply Nat.ltb_lt in Li. rewrite Li. reflexivity. }
   split.
-  - intros i j c. rewrite !L. apply D.
-  - intros i c. rewrite L, Hh. apply B.
+  - intros p y Hy. destruct (inv_child _ HT p y Hy) as (A & _). pose proof (chl_lt _ _ _ Hy) as B.
+    rewrite !E by assumption. apply C1. exact Hy.
+  - intros y p Hp. destruct (inv_parent _ HT y p Hp) as (A & _). pose proof (par_lt _ _ _ Hp) as B.
+    rewrite !E by assumption. apply C2. exact Hp.
 Qed.
-
-Lemma opposite i j : side n i = b -> side n j <> b ->
-  (i < n /\ n <= j) \/ (j < n /\ n <= i).
-Proof.
-  unfold side. intros Hi Hj. destruct (Nat.ltb_spec i n), (Nat.ltb_spec j n); auto; congruence.
-Qed.
-
-Lemma sep_disjoint u i j c : Sep n u -> side n i = b -> side n j <> b ->
-  In c (lown u i) -> ~ In c (lown u j).
-Proof.
-  intros [D _] Hi Hj Hc Hc'. destruct (opposite i j Hi Hj) as [(A & B)|(A & B)].
-  - exact (D i j c A B Hc Hc').
-  - exact (D j i c A B Hc' Hc).
-Qed.
-
-Lemma lown_live u i : is_junk (fs u) i = false -> lown u i = owned u i.
-Proof. intros H. unfold lown. rewrite H. reflexivity. Qed.
-
-(* a setter / style update / label assignment on object i does not change what an object of the
-   other side shows *)
-Lemma view_apply_kw_other u i k j : Sep n u -> side n i = b -> side n j <> b ->
-  is_junk (fs u) i = false -> is_junk (fs u) j = false ->
-  view (apply_kw u i k) j = view u j.
-Proof.
-  intros HS Hi Hj Li Lj.
-  assert (Hne : j <> i) by (intros ->; contradiction).
-  assert (Bd : forall u0, Sep n u0 -> fs u0 = fs u -> forall m, (m = i \/ m = j) ->
-                 forall c, In c (owned u0 m) -> c < length (heap u0)).
-  { intros u0 [_ B0] F0 m Hm c Hc. apply (B0 m c). rewrite lown_live; auto.
-    rewrite F0. destruct Hm; subst; auto. }
-  destruct k as [sl v|v|l]; simpl.
-  - apply view_stable.
-    + unfold cget. simpl. rewrite cget_lupd. destruct (Nat.eqb_spec j i); [contradiction | reflexivity].
-    + intros c Hc. unfold hget. simpl. apply app_nth1. apply (Bd u HS eq_refl j); auto.
-  - assert (V1 : view (touch_style u i) j = view u j).
-    { apply view_touch; apply (Bd u HS eq_refl); auto. }
-    destruct (style_cell (cget (touch_style u i) i)) as [c|] eqn:Es; auto.
-    rewrite <- V1. apply view_stable; auto. intros c' Hc'. apply hget_write. intros ->.
-    pose proof (Sep_touch n u i HS) as HS1.
-    apply (sep_disjoint (touch_style u i) i j c HS1 Hi Hj).
-    + rewrite lown_live by (rewrite fs_touch; exact Li). apply owned_cases. auto.
-    + rewrite lown_live by (rewrite fs_touch; exact Lj). exact Hc'.
-  - rewrite view_set_label by exact Hne. apply view_touch; apply (Bd u HS eq_refl); auto.
-Qed.
-
-(* ---- the invariant along the run *)
-Variable u0 : cstate.
-
-Record KI (u : cstate) : Prop := mkKI {
-  ki_sep : Sep n u;
-  ki_fr : FR n b (fs u0) (fs u);
-  ki_view : forall j, side n j <> b -> is_junk (fs u0) j = false -> view u j = view u0 j }.
-
-Lemma junk_same u j : KI u -> is_junk (fs u) j = is_junk (fs u0) j.
-Proof. intros HK. unfold is_junk, is_k. rewrite (fr_kd _ _ _ _ (ki_fr u HK)). reflexivity. Qed.
-
-Lemma KI_step u l : KI u -> lok u l -> KI (lstep u l).
-Proof.
-  intros HK Hl. destruct l as [o|c v|i k]; simpl in *.
-  - destruct (creates o); auto.
-    pose proof (step_frame n b (fs u) o (fr_closed _ _ _ _ (ki_fr u HK)) Hl) as F.
-    split; simpl.
-    + apply (Sep_same_kinds u); auto; [apply F | apply HK].
-    + eapply FR_trans; [apply HK | exact F].
-    + intros j Hj Lj. rewrite <- (ki_view u HK j Hj Lj). reflexivity.
-  - destruct Hl as (i & Hi & Hc). split.
-    + apply Sep_write. apply HK.
-    + apply HK.
-    + intros j Hj Lj. rewrite <- (ki_view u HK j Hj Lj). apply view_stable; auto.
-      intros c' Hc'. apply hget_write. intros ->.
-      apply (sep_disjoint u i j c (ki_sep u HK) Hi Hj Hc).
-      rewrite lown_live; auto. rewrite (junk_same u j HK). exact Lj.
-  - destruct Hl as (Hi & Li). split.
-    + apply Sep_apply_kw. apply HK.
-    + rewrite fs_apply_kw. apply HK.
-    + intros j Hj Lj. rewrite <- (ki_view u HK j Hj Lj).
-      apply view_apply_kw_other; auto; [apply HK | rewrite (junk_same u j HK); exact Lj].
-Qed.
-
-Lemma KI_run ls : forall u, KI u -> lrun_ok u ls -> KI (lrun u ls).
-Proof.
-  induction ls as [|l r IH]; intros u HK Hok; simpl; auto.
-  destruct Hok as [H1 H2]. apply IH; auto. apply KI_step; auto.
-Qed.
-End Later.
 
 (* everything the other side shows: the object records (parent, children, typed lists), the
    flattened views and the readings of all attributes / style / label *)
 Theorem later_ops_frame s x kws : WF s -> live (fs s) x = true ->
   let u0 := copy s x kws in let n := length (fs s) in
-  forall (b : bool) (ls : list lop), lrun_ok n b u0 ls ->
+  forall (b : bool) (ls : list lop),
+  let side := sideb n (n + n) b in
+  lrun_ok side b u0 ls ->
   let u := lrun u0 ls in
-  forall j, side n j <> b ->
+  forall j, side j <> b ->
     get (fs u) j = get (fs u0) j /\
     children_all (fs u) j = children_all (fs u0) j /\
     sources_all (fs u) j = sources_all (fs u0) j /\
@@ -169,38 +457,54 @@ Theorem later_ops_frame s x kws : WF s -> live (fs s) x = true ->
     collections_all (fs u) j = collections_all (fs u0) j /\
     (is_junk (fs u0) j = false -> view u j = view u0 j).
 Proof.
-  intros HW Hx u0 n b ls Hok u j Hj.
-  assert (HC0 : Closed n (fs u0)).
-  { unfold u0. rewrite fs_copy. apply copy_closed; auto. apply HW. }
-  assert (K0 : KI n b u0 u0).
+  intros HW Hx u0 n b ls side Hok u j Hj.
+  assert (L0 : length (fs u0) = n + n) by (unfold u0; rewrite fs_copy; apply copy_length).
+  assert (Hnew : forall i, length (fs u0) <= i -> side i = b).
+  { intros i Li. unfold side, sideb. destruct (Nat.ltb_spec i (n + n)); [lia | reflexivity]. }
+  assert (HC0 : Closed side (fs u0)).
+  { unfold u0. rewrite fs_copy. apply copy_closed_sideb; auto. apply HW. }
+  assert (K0 : KI side b u0 u0).
   { split.
-    - apply (po_sep s x u0 (PO_copy s x HW Hx kws)).
-    - apply FR_refl. exact HC0.
+    - destruct (po_sep s x u0 (PO_copy s x HW Hx kws)) as [D B]. split; auto.
+      intros i i' c Si Si' Hi Hi'.
+      pose proof (lown_nonempty_lt _ _ _ Hi) as Li. pose proof (lown_nonempty_lt _ _ _ Hi') as Li'.
+      unfold side, sideb in Si, Si'. rewrite L0 in Li, Li'.
+      apply Nat.ltb_lt in Li. apply Nat.ltb_lt in Li'. rewrite Li in Si. rewrite Li' in Si'.
+      apply Nat.ltb_lt in Si. apply Nat.ltb_ge in Si'. exact (D i i' c Si Si' Hi Hi').
+    - apply copy_co_len; auto.
+    - unfold u0. rewrite fs_copy. apply copy_inv; auto. apply HW.
+    - exists 0. apply FR_refl. exact HC0.
     - reflexivity. }
-  pose proof (KI_run n b u0 ls u0 K0 Hok) as HK. fold u in HK.
-  destruct (ki_fr _ _ _ _ HK) as [F1 F2 F3 F4].
-  assert (G : forall want want', (forall i, side n i <> b -> want' i = want i) ->
+  pose proof (KI_run side b u0 Hnew ls u0 K0 Hok) as HK. fold u in HK.
+  destruct (ki_fr _ _ _ _ HK) as (g & [F1 F2 F3 F4 F5]).
+  pose proof (off_old side b u0 Hnew j Hj) as Lj.
+  assert (G : forall want want', (forall i, side i <> b -> want' i = want i) ->
             flat (fuel_of (fs u)) (fs u) want' (children (get (fs u) j)) =
             flat (fuel_of (fs u0)) (fs u0) want (children (get (fs u0) j))).
-  { intros want want' Hw. unfold fuel_of. rewrite F1, (F3 j Hj).
-    apply (flat_agree n b (fs u0) (fs u)); auto.
-    intros y Hy. destruct HC0 as [C1 _]. rewrite (C1 j y Hy). exact Hj. }
-  assert (Kk : forall kk i, is_k kk (fs u) i = is_k kk (fs u0) i).
-  { intros kk i. unfold is_k. rewrite F2. reflexivity. }
-  split; [apply F3; exact Hj|].
-  split; [apply G; intros i _; unfold w_all, is_junk; rewrite Kk; reflexivity|].
-  split; [apply G; intros i _; apply Kk|].
-  split; [apply G; intros i _; apply Kk|].
-  split; [apply G; intros i _; apply Kk|].
+  { intros want want' Hw. rewrite (F4 j Hj).
+    assert (Hl : forall y, In y (children (get (fs u0) j)) -> side y <> b).
+    { intros y Hy. destruct HC0 as [C1 _]. rewrite (C1 j y Hy). exact Hj. }
+    (* more fuel does not change the flattening of a subtree that fits into the smaller fuel *)
+    rewrite (flat_agree side b (fs u0) (fs u) want want' HC0 F4 Hw (fuel_of (fs u))); auto.
+    apply flat_fuel_irrelevant.
+    - unfold u0. rewrite fs_copy. apply copy_inv; auto. apply HW.
+    - unfold fuel_of. lia. }
+  assert (Kk : forall kk i, side i <> b -> is_k kk (fs u) i = is_k kk (fs u0) i).
+  { intros kk i Hi. unfold is_k, kd. rewrite (F4 i Hi). reflexivity. }
+  split; [apply F4; exact Hj|].
+  split; [apply G; intros i Hi; unfold w_all, is_junk; rewrite Kk; auto|].
+  split; [apply G; intros i Hi; apply Kk; auto|].
+  split; [apply G; intros i Hi; apply Kk; auto|].
+  split; [apply G; intros i Hi; apply Kk; auto|].
   apply (ki_view _ _ _ _ HK j Hj).
 Qed.
 
 (* non-vacuity: operations on the copy of ex_world (clone of the collection = object 3, clone of
-   its sensor = object 2) that satisfy the side condition *)
+   its sensor = object 2), including a new collection (object 4) and a further copy *)
 Example later_ops_example :
-  lrun_ok 2 false (copy ex_world 1 [])
-    [LTree (Remove 3 [2] true ERaise); LKw 2 (KwAttr 0 7); LTree (Add 3 [2] false);
-     LKw 3 (KwStyle 5)].
+  lrun_ok (sideb 2 4 false) false (copy ex_world 1 [])
+    [LTree (Remove 3 [2] true ERaise); LKw 2 (KwAttr 0 7); LNew KColl [1; 2] 0 0 None;
+     LTree (Add 4 [2] false); LCopy 4 []; LKw 3 (KwStyle 5)].
 Proof.
   simpl. repeat split; try reflexivity; intros y [<-|[]]; reflexivity.
 Qed.
